@@ -80,6 +80,9 @@ type Ret struct {
 }
 
 type Obs struct {
+	// node table after a successful Head() call (weights and best-child links are fresh then):
+	// [root, slot, weight, bestChildRoot, bestChildSlot, bestDescRoot, bestDescSlot, hasForkchoiceParent]
+	Table   [][]int `json:"table"`
 	HasHead int     `json:"hashead"`
 	Head    []int   `json:"head"` // [ok, root, slot]
 	Nodes   [][]int `json:"nodes"`
@@ -183,6 +186,28 @@ func refs(rs []forkchoice.NodeRef) [][]int {
 	return out
 }
 
+func (t *target) table() [][]int {
+	nodes, off := t.arr.VerifNodes()
+	ref := func(i forkchoice.NodeIndex) (int, int) {
+		if i == proto.NONE || i < off || int(i-off) >= len(nodes) {
+			if i != proto.NONE {
+				return -1, -1 // a link that points outside the table
+			}
+			return 0, 0
+		}
+		n := nodes[i-off]
+		return rootID(n.Ref.Root), int(n.Ref.Slot)
+	}
+	out := make([][]int, 0, len(nodes))
+	for _, n := range nodes {
+		bcr, bcs := ref(n.BestChild)
+		bdr, bds := ref(n.BestDescendant)
+		out = append(out, []int{rootID(n.Ref.Root), int(n.Ref.Slot), int(n.Weight), bcr, bcs, bdr, bds,
+			b2i(n.ForkchoiceParent != proto.NONE)})
+	}
+	return out
+}
+
 func (t *target) observe(op *Op) {
 	obs := &Obs{Head: []int{0, 0, 0}, Nodes: [][]int{}, Pin: []int{}}
 	var keys []forkchoice.NodeRef
@@ -212,6 +237,7 @@ func (t *target) observe(op *Op) {
 			obs.HasHead = 1
 			if err == nil {
 				obs.Head = []int{1, rootID(h.Root), int(h.Slot)}
+				obs.Table = t.table()
 			} else {
 				op.Detail += " head: " + err.Error()
 			}
@@ -427,6 +453,9 @@ func normalize(op *Op) {
 	}
 	if o.Nodes == nil {
 		o.Nodes = [][]int{}
+	}
+	if o.Table == nil {
+		o.Table = [][]int{}
 	}
 	if o.Just == nil {
 		o.Just = []int{0, 0}
